@@ -115,7 +115,8 @@ def opRun (j : Json) : Except String Json := do
       if i ≥ n then throw s!"pid {i} out of range"
       let (cs, rs) :=
         if e ≥ 0 then (let (c, r) := obs s i; (callStr c, resStr r))
-        else ("signal", if s.pc i == .hold then "delivered" else "ignored")
+        else ("signal", if s.pc i == .hold || s.pc i == .isdir .fin || (match s.pc i with | .mkdir _ => true | _ => false)
+                        then "delivered" else "ignored")
       s := if e ≥ 0 then step s i else interrupt s i
       let v := violators n s
       steps := steps.push (Json.arr #[toJson i, cs, rs,
@@ -176,7 +177,9 @@ def buildGraph (ps : Array Proc) (maxStates : Nat) (sig : Bool := false) : Graph
     let mut row : Array (Option Nat) := #[]
     for q in [0:nev] do
       let p := if q < n then q else q - n
-      if terminal (x.pcs.getD p .done) || (q ≥ n && !(x.pcs.getD p .done == .hold)) then
+      if terminal (x.pcs.getD p .done) ||
+         (q ≥ n && !(x.pcs.getD p .done == .hold || x.pcs.getD p .done == .isdir .fin ||
+                     (match x.pcs.getD p .done with | .mkdir _ => true | _ => false))) then
         row := row.push none
       else
         let y := if q < n then snapStep ps x p else snapIntr ps x p
@@ -319,7 +322,11 @@ def opRunPath (j : Json) : Except String Json := do
       if e ≥ 0 then
         (let (d, c, r) := mobs S i
          (match d with | some d => callStr c ++ "@" ++ toString d | none => callStr c, resStr r))
-      else ("signal", if inBodyM (S.ctl i) then "delivered" else "ignored")
+      else ("signal", if inBodyM (S.ctl i) || (match S.ctl i with
+                          | .acq k => atRestAcq S i k
+                          | .rel j _ _ o => o != .killed && (match (S.path i)[j]? with | some d => (S.comp d).pc i == .hold | none => false)
+                          | _ => false)
+                      then "delivered" else "ignored")
     S := if e ≥ 0 then mstep S i else mintr S i
     let v := mviolators n nd S
     steps := steps.push (Json.arr #[toJson i, cs, rs,
